@@ -138,6 +138,7 @@ type c01Op struct {
 	Size int    `json:"size,omitempty"`
 	I    int    `json:"i,omitempty"`
 	Lag  bool   `json:"lag,omitempty"`
+	Unsub int   `json:"unsub,omitempty"` // deliverx: unsubscribe (1 client command, 2 server API) started between CheckPosition and Enqueue
 }
 
 type c01Script struct {
@@ -145,6 +146,7 @@ type c01Script struct {
 	Pos        bool      `json:"pos"`
 	Rec        bool      `json:"rec"`
 	JL         bool      `json:"jl"`
+	Batch      bool      `json:"batch"` // per-channel batching (MaxDelay), C10 only
 	SinceDelta int       `json:"since_delta"` // since = max(0, top+delta) at request time
 	SinceEp    int       `json:"since_ep"`    // 0 "", 1 current epoch, 2 stale/bogus
 	Phase      [][]c01Op `json:"phase"`       // 0 before reserve, 1 after reserve (client), 2 after hub add, 3 after history read, 4 server: after merge, 5 server: after commit, 6 after subscribe, 7 after unsubscribe, 8 after close
@@ -207,6 +209,7 @@ func c01NewWorld(t *testing.T, sc *c01Script) *c01World {
 			}
 		},
 		ClientChannelPositionMaxTimeLag: time.Hour,
+		GetChannelBatchConfig: c01BatchFn(sc),
 	})
 	if err != nil {
 		t.Fatal(err)
@@ -236,6 +239,39 @@ func c01NewWorld(t *testing.T, sc *c01Script) *c01World {
 	connectClientV2(t, w.client)
 	w.topOffset() // create the stream: epoch index 1
 	return w
+}
+
+// per-channel batching: the flush timer is an hour away; the driver fires it itself
+// (opFlush), so flushes happen at schedule-chosen points
+func c01BatchFn(sc *c01Script) func(string) ChannelBatchConfig {
+	if !sc.Batch {
+		return nil
+	}
+	return func(string) ChannelBatchConfig { return ChannelBatchConfig{MaxDelay: time.Hour} }
+}
+
+// the channel writer's timer fires: same effect as channelWriter.waitTimer's timer branch
+func (w *c01World) opFlush() {
+	pcw := w.client.perChannelWriter
+	if pcw == nil {
+		return
+	}
+	pcw.mu.RLock()
+	cw := pcw.writers[c01Ch]
+	pcw.mu.RUnlock()
+	if cw == nil {
+		return
+	}
+	cw.mu.Lock()
+	n := len(cw.buffer) + len(cw.latestPubs)
+	if n > 0 {
+		cw.flushLocked()
+	}
+	cw.stopTimerLocked()
+	cw.mu.Unlock()
+	if n > 0 {
+		w.emitL("LFlush")
+	}
 }
 
 func (w *c01World) epochIndex(s string) uint64 {
@@ -402,6 +438,79 @@ func (w *c01World) opDeliver(i int, lag bool) {
 	w.settleInsufficient()
 }
 
+// A delivery parked between CheckPosition (c.mu released) and Enqueue: the positioned path
+// of writePublicationUpdatePosition calls Transport.DisabledPushFlags there.  While it is
+// parked an unsubscribe is started in another goroutine: it deletes the channel context and
+// then waits for the hub write lock held (read side) by the parked broadcast.
+func (w *c01World) opDeliverSplit(i int, unsub int) {
+	if i >= len(w.fl) || w.blocked != nil || w.locked {
+		return
+	}
+	tk := w.removeTok(i)
+	w.emitL(fmt.Sprintf("(LDeliver %d%%nat false)", i))
+	done := make(chan struct{})
+	atomic.StoreInt32(&w.armDPF, 1)
+	go func() { w.deliverNow(tk, false); close(done) }()
+	select {
+	case <-done: // never reached the enqueue stage
+		atomic.StoreInt32(&w.armDPF, 0)
+		w.emit("HTail")
+		w.settleInsufficient()
+		return
+	case g := <-w.arrive:
+		if g != "dpf" {
+			w.fail("unexpected gate %s", g)
+		}
+	case <-time.After(5 * time.Second):
+		w.fail("split delivery stuck")
+		return
+	}
+	w.emit("HPre")
+	var udone chan struct{}
+	if unsub != 0 && !w.tr.isClosed() {
+		udone = make(chan struct{})
+		was := w.isSubscribed()
+		go func() {
+			if unsub == 1 {
+				w.client.HandleCommand(&protocol.Command{Id: 11, Unsubscribe: &protocol.UnsubscribeRequest{Channel: c01Ch}}, 0)
+			} else {
+				w.client.Unsubscribe(c01Ch)
+			}
+			close(udone)
+		}()
+		if was {
+			// the unsubscribe thread has deleted the context once the channel is gone from c.channels
+			w.waitFor("unsubscribe to delete the channel context", func() bool {
+				w.client.mu.RLock()
+				_, ok := w.client.channels[c01Ch]
+				w.client.mu.RUnlock()
+				return !ok
+			})
+		}
+		if unsub == 1 {
+			w.emitL("(LUnsub UClient)")
+		} else {
+			w.emitL("(LUnsub UServer)")
+		}
+	}
+	w.release <- struct{}{}
+	select {
+	case <-done:
+	case <-time.After(5 * time.Second):
+		w.fail("split delivery did not finish")
+	}
+	w.emit("HTail")
+	if udone != nil {
+		select {
+		case <-udone:
+		case <-time.After(5 * time.Second):
+			w.fail("unsubscribe did not finish")
+		}
+		w.emit("HUnsubRest")
+	}
+	w.settleInsufficient()
+}
+
 func (w *c01World) joinBlocked() {
 	if w.blocked == nil {
 		return
@@ -441,6 +550,10 @@ func (w *c01World) runOps(ops []c01Op) {
 			}
 		case "deliver":
 			w.opDeliver(op.I, op.Lag)
+		case "flush":
+			w.opFlush()
+		case "deliverx":
+			w.opDeliverSplit(op.I, op.Unsub)
 		case "clear":
 			w.opClear()
 		case "reset":
@@ -775,7 +888,7 @@ func (w *c01World) caseTerm(frames []c01Frame) string {
 	if w.sc.Server {
 		variant = "VServer"
 	}
-	return vApp("mkCase", variant, vBool(w.sc.Pos), vBool(w.sc.Pos && w.sc.Rec), vN(w.since), vN(w.sinceEp), vBool(w.sc.JL),
+	return vApp("mkCase", variant, vBool(w.sc.Pos), vBool(w.sc.Pos && w.sc.Rec), vN(w.since), vN(w.sinceEp), vBool(w.sc.JL), vBool(w.sc.Batch),
 		vList(w.sched), c01CoqFrames(frames), c01CoqPubs(w.glog))
 }
 
